@@ -126,7 +126,7 @@ def cases(tier, cfg, seed):
                 for kind in kinds: add(DynWrite(T, (N,), (n,), op, kind))
         if isf: add(DynWrite(T, (9,), (3,), '+=', 'matvec')); add(DynWrite(T, (9,), (4,), '=', 'matvec'))
         for shape, osh in ([((4, 9), (2, 4))] if tier == 'quick' else [((4, 9), (2, 4)), ((5, 5), (3, 2)), ((3, 8), (3, 8)), ((4, 9), (4, 3))]):
-            for op in (('=', '+=') if tier == 'quick' else OPS):
+            for op in (('=',) if tier == 'quick' else OPS):
                 for kind in ('tensor', 'scalar'): add(DynWrite(T, shape, osh, op, kind))
         for shape in ((7,), (3, 5), (2, 3, 4)): add(ElemWrite(T, shape))
         add(TwoWrites(T, 9, 3))
